@@ -20,10 +20,10 @@ def run(ctx):
         base = ctx.rng.randint(28, 60)
         cases.append({"kind": "fingering", "ti": ti, "notes": [base + ctx.rng.randint(0, 14) for _ in range(k)], "maxdist": ctx.rng.choice([3, 4, 4, 6])})
     for ti in (3, 11, 20, 33, 47):
-        for ch in (CHORDS[:6] if q else CHORDS):
+        for ch in (CHORDS[:6] if q and ti != 33 else CHORDS):
             cases.append({"kind": "chord", "ti": ti, "chord": ch, "maxdist": 4, "maxfingers": 4})
     progs = ctx.gen_printed("Gen_C20", "Gen_C20_%s.cfg" % ctx.tier, simulate="num=%d" % (200 if q else 3000), depth=12 if q else 18, seed=ctx.seed + 31, parallel=8)
-    cases += [{"kind": "prog", "prog": p} for p in progs]
+    cases += [{"kind": "prog", "prog": p, "bass": i % 3 == 0} for i, p in enumerate(progs)]
     ctx.exhaustive = False
     ctx.bounds = {"quick": "12 of the registered tunings x all strings x notes 0..127 x maxfret {12, 24}; get_Note grid around the bounds; 335 lookup queries; 600 random note sets (1..4 notes) over all tunings against the brute-force fingering specification (max distance 3/4/6); chord fingerings for 6 chords on 5 tunings; 200 TLC-simulated bars/tracks/compositions rendered at widths 60/80/100 (from_Composition, from_Track, from_Bar, from_NoteContainer, from_Note), with unplayable entries mixed in",
                   "thorough": "all tunings; 20000 note sets; 15 chords; 3000 rendered programs"}[ctx.tier]
